@@ -142,6 +142,10 @@ def defer_classifier(found, clock_field):
     'C04': 'a remove the replica has applied must still cover the adds it observed when they arrive later (all delivery schedules)',
     'C05': 'same for key removes of Map',
     'C20': 'storing a remove the replica clock already covers leaves a stale pending remove (residue); dropping part of a pending remove makes replicas with the same knowledge differ',
+    'C02': 'merge files the other replica\'s pending removes through this very routine: if part of a pending remove is dropped or the '
+           'decision depends on which side holds it, (a+b)+c and a+(b+c) remember different removes',
+    'C03': 'a remove delivered as an op and the same remove arriving inside a merged state are filed by the same routine and must end '
+           'up equally remembered',
 }, floor=2)
 def def_decide(ctx):
     """A remove is written to the pending table exactly when partial_cmp(rm.clock, self.clock) is Greater or None."""
@@ -217,9 +221,9 @@ def def_decide(ctx):
             if lost:
                 ctx.fail(name + '/must', body, 'a remove whose clock is %s the replica clock can return without being remembered'
                          % ' / '.join({'Gt': 'ahead of', 'None': 'concurrent with'}[o] for o in lost),
-                         line=block_line(it, sites[0]), details=det, props=['C08', 'C09', EL[inst]])
+                         line=block_line(it, sites[0]), details=det, props=['C08', 'C09', 'C02', 'C03', EL[inst]])
             else:
-                ctx.ok(name + '/must', body, 'remembered under {Gt, None}', line=block_line(it, sites[0]), details=det, props=['C08', 'C09', EL[inst]])
+                ctx.ok(name + '/must', body, 'remembered under {Gt, None}', line=block_line(it, sites[0]), details=det, props=['C08', 'C09', 'C02', 'C03', EL[inst]])
             if stale:
                 ctx.fail(name + '/may', body, 'a remove already covered by the replica clock (%s) is stored as pending'
                          % ','.join(stale), line=block_line(it, may[stale[0]][0]), details=det, props=['C20'])
@@ -227,7 +231,7 @@ def def_decide(ctx):
                 ctx.ok(name + '/may', body, 'stored only under {Gt, None}', line=block_line(it, sites[0]), details=det, props=['C20'])
             ctx.check(keyed, name + '/key', body, 'pending remove is keyed by the compared clock',
                       'the clock stored in the pending table is not the clock that was compared', details=det,
-                      props=['C08', 'C09', EL[inst]])
+                      props=['C08', 'C09', 'C02', 'C03', EL[inst]])
             # accumulate: elements already pending under the same clock must not be discarded
             inserts, unions = [], []
             for bb2, c2 in ait.calls.items():
@@ -264,7 +268,7 @@ def def_decide(ctx):
                 aerrs.append('the new elements are not added to the pending set')
             ctx.check(not aerrs, name + '/accumulate', abody, 'pending elements under the same clock are accumulated, never replaced',
                       aerrs[0] if aerrs else '', details={'present -> (insert may, union must, any must)': {str(k): v for k, v in acc.items()}},
-                      props=['C08', 'C09', 'C20', EL[inst]])
+                      props=['C08', 'C09', 'C20', 'C02', 'C03', EL[inst]])
 
 
 def _rm_elem_sites(facts, it, r, sub=()):
